@@ -84,9 +84,10 @@ def worker_e(payload):
         for j, (a, b) in enumerate(zip(r["res"], im["res"])):
             out["ops"] += 1
             out["hist"]["result:" + b[0]] = out["hist"].get("result:" + b[0], 0) + 1
+            stop_after = False
             if a != b:
                 out["corr"].append({"layer": "E", "call": j, "model": a, "impl": b, "src": im.get("src"), "scenario": desc})
-                break
+                stop_after = True  # the oracle below looks at the real code only: evaluate it here too
             args = sc["calls"][j]
             M = [hid for hid, ts in htys.items() if all(safe_isinstance(v, T) for v, T in zip(args, ts))]
             want = ["handler", M[0]] if len(M) == 1 else (["fallthrough"] if not M else ["ambiguous"])
@@ -118,6 +119,8 @@ def worker_e(payload):
                 if bounds and not any(safe_isinstance(value, B) for B in bounds):
                     wit = {"kind": "dep-rank", "world": w.desc, "scenario": sc_json(sc), "call": j, "guard": [fn, list(params), corr_e.stable_repr(value)]}
                     o["viol"].append({"law": "user condition evaluated on a value outside its bound", **wit})
+            if stop_after:
+                break
         if len(out["samples"]) < 1 and im["res"]:
             out["samples"].append({"handlers": sc["handlers"], "call": [corr_e.stable_repr(v) for v in sc["calls"][0]], "strategy": im["strategy"], "impl": im["res"][0]})
     return out
@@ -202,9 +205,13 @@ def worker_f(payload):
         return out["oracles"].setdefault(name, {"n": 0, "nontrivial": 0, "viol": [], "known": {}})
 
     def known(o, key, witness):
+        if stop_flag[0]:
+            o["viol"].append({"law": f"fails inside class {key} but differently from the model", **witness})
+            return
         e = o["known"].setdefault(key, {"count": 0, "witness": witness})
         e["count"] += 1
 
+    stop_flag = [False]
     for i, (r, im) in enumerate(zip(res, impls)):
         w, ew, sc, fw = keep[i]
         desc = {"world": w.desc, "scenario": sc}
@@ -212,6 +219,7 @@ def worker_f(payload):
             out["corr"].append({"layer": "F", "kind": "driver-error", "detail": r["error"], "scenario": desc})
             continue
         regs = []
+        warmed = {}
         for j, (a, b) in enumerate(zip(r["ops"], im)):
             out["ops"] += 1
             op = sc["ops"][j]
@@ -220,15 +228,31 @@ def worker_f(payload):
             if mb["o"] == ["cycle"]:
                 ma.pop("nres", None)
                 mb.pop("nres", None)
+            stop_after = False
+            stop_flag[0] = ma != mb
             if ma != mb:
                 out["corr"].append({"layer": "F", "op_index": j, "op": op, "model": ma, "impl": mb, "msg": b.get("msg"), "scenario": desc})
-                break
+                stop_after = True
+                if op[0] != "call":
+                    break
             if op[0] == "reg":
                 regs.append(op[1])
+                warmed = {}
                 continue
             if op[0] != "call":
                 continue
             out["hist"]["outcome:" + b["o"][0]] = out["hist"].get("outcome:" + b["o"][0], 0) + 1
+            # C20: a call that already succeeded consults no user predicate and resolves nothing when repeated
+            ck = json.dumps(op)
+            if ck in warmed and "npred" in b:
+                o20 = orc("C20")
+                o20["n"] += 1
+                if any("pred" in kinds_of(p["ty"]) for di in regs for p in sc["defs"][di]["params"]):
+                    o20["nontrivial"] += 1
+                if b["npred"] or b.get("nres"):
+                    o20["viol"].append({"law": "a repeated successful call consulted user class predicates / resolved again", "npred": b["npred"], "nres": b.get("nres"), "kind": "fn-dep", "world": w.desc, "scenario": sc, "op_index": j})
+            if b["o"][0] == "ran":
+                warmed[ck] = True
             # C01: every entered body got arguments that satisfy its annotations (isinstance)
             o1 = orc("C01")
             for (mid, bad) in b.get("acc", []):
@@ -272,6 +296,8 @@ def worker_f(payload):
                         known(orc(name), key, wit)
                     else:
                         orc(name)["viol"].append({"law": "delete the methods whose condition fails, then the documented rule", **wit})
+            if stop_after:
+                break
         if len(out["samples"]) < 1:
             out["samples"].append({"defs": sc["defs"][:3], "last_op": sc["ops"][-1], "impl": {k: v for k, v in im[-1].items() if k in ("o", "t")}})
     return out
